@@ -483,3 +483,27 @@ package pubsub
 //@     invariant [others_untouched_while_one_stream_is_evicted] forall k int :: (k in s.streams) && s.streams[k] != strm && s.streams[k].total != old(s.streams[k].total) ==> !(spaceId in s.streams[k].bySpace)
 //@     invariant si == nil || si.trie != nil
 //@     invariant s.pool != nil && s.streams != nil && s.streams == old(s.streams) && strm != nil && strm.bySpace != nil
+
+// C17: closing a space on the serving side obeys the same bookkeeping rule as eviction (second and
+// third loop of CloseSpace; the client-side half above them and the interest message are not
+// described here, only their frame is used)
+//@ func (*service).sendInterest
+//@   trusted
+//@   modifies nothing
+//@ func (*service).CloseSpace
+//@   requires s != nil && s.pool != nil
+//@   assumes s.streams != nil
+//@   assumes forall k int :: (k in s.streams) ==> s.streams[k] != nil && s.streams[k].bySpace != nil
+//@   ensures [lowered_count_means_space_dropped] forall k int :: (k in s.streams) && old(k in s.streams) && s.streams[k].total != old(s.streams[k].total) ==> !(spaceId in s.streams[k].bySpace)
+//@   loop 0:
+//@     invariant s.pool != nil && s.streams != nil && s.streams == old(s.streams)
+//@     invariant forall k int :: (k in s.streams) <==> old(k in s.streams)
+//@     invariant forall k int :: (k in s.streams) ==> s.streams[k] == old(s.streams[k]) && s.streams[k] != nil && s.streams[k].bySpace != nil && s.streams[k].bySpace == old(s.streams[k].bySpace) && s.streams[k].total == old(s.streams[k].total)
+//@   loop 1:
+//@     invariant forall k int :: (k in s.streams) ==> old(k in s.streams) && s.streams[k] == old(s.streams[k]) && s.streams[k] != nil && s.streams[k].bySpace != nil && s.streams[k].bySpace == old(s.streams[k].bySpace)
+//@     invariant [lowered_count_means_space_dropped] forall k int :: (k in s.streams) && s.streams[k].total != old(s.streams[k].total) ==> !(spaceId in s.streams[k].bySpace)
+//@     invariant s.pool != nil && s.streams != nil && s.streams == old(s.streams)
+//@   loop 2:
+//@     invariant forall k int :: (k in s.streams) ==> old(k in s.streams) && s.streams[k] == old(s.streams[k]) && s.streams[k] != nil && s.streams[k].bySpace != nil && s.streams[k].bySpace == old(s.streams[k].bySpace)
+//@     invariant [others_untouched_while_one_stream_is_dropped] forall k int :: (k in s.streams) && s.streams[k] != strm && s.streams[k].total != old(s.streams[k].total) ==> !(spaceId in s.streams[k].bySpace)
+//@     invariant s.pool != nil && s.streams != nil && s.streams == old(s.streams) && strm != nil && strm.bySpace != nil
